@@ -18,7 +18,10 @@ type TrackSpec struct{ Type, Field string }
 
 // Config parameterises one analysis run.
 type Config struct {
-	Prog *ssa.Program
+	// Ambient lists heap objects that are visible in every frame under their
+	// own id (model state read and written by the hooks, not by the program).
+	Ambient []string
+	Prog    *ssa.Program
 	// InModule reports whether fn's body is interpreted.
 	InModule func(fn *ssa.Function) bool
 	// Tracked leaves of heap (non-local) objects.
